@@ -15,6 +15,7 @@ def run(ctx, out):
     thorough = ctx.search_tier == "thorough"
     U64 = 2 ** 64 - 1
     cases = []
+    n_limit = 0
     pre_amounts = [0, 1, 99, 100, 2500, 10 ** 6, 10 ** 11, 10 ** 12 - 1] + [rng.randrange(10 ** 12) for _ in range(6)]
     n_random = 40 if thorough else 6
     for pre in pre_amounts:
@@ -42,9 +43,18 @@ def run(ctx, out):
                         P.status(result_code=0), P.completion()]
             queues = {"0622": [resv],
                       "0623": [[P.status(**st), P.print_line("receipt"), P.completion()]]}
-            cases.append((cfg, ["new", f"begin:{tok(token)}", f"commit:{tok(token)}:{final}"], queues, None, None))
+            calls = ["new", f"begin:{tok(token)}", f"commit:{tok(token)}:{final}"]
+            if rng.random() < 0.3:
+                # the card is read first and reports its own pre-authorisation limit (tag 1F0B), below / at / above the configured
+                # amount: the reservation is still made for the configured amount, which is what the commit releases from
+                limit = rng.choice([0, 1, max(0, pre - 1), pre // 2, pre, pre + 1, 1000, 10000])
+                uid = bytes(rng.randrange(1, 256) for _ in range(rng.randint(4, 10))).hex()
+                queues["06c0"] = [[P.intermediate(), P.status(result_code=0, tlv={"uuid": uid, "maximum_pre_autorisation": limit})]]
+                calls.insert(1, "readcard")
+                n_limit += 1
+            cases.append((cfg, calls, queues, None, None))
     ops, impl = run_histories(ctx, out, cases, "begin + commit")
     out.rule = ("pre-authorisation amounts {0, 1, 99, 100, 2500, 10^6, 10^11, 10^12-1, random} x final amounts {0, 1, equal, off-by-one either side, 2^32, 2^62, 2^63-1, 2^63, 2^63+1, u64::MAX-1294, u64::MAX-1, u64::MAX, random}; "
-                "currencies SEK/GBP/EUR, CP437 tokens of length 0..60, receipt numbers 1..9999 (also reported twice with different values: the latest counts), status fields over their ranges / absent. The reservation and partial-reversal requests on the wire must equal, byte for byte, "
+                "currencies SEK/GBP/EUR, CP437 tokens of length 0..60, receipt numbers 1..9999 (also reported twice with different values: the latest counts), status fields over their ranges / absent; in 30 % of the histories the card is read first and reports its own pre-authorisation limit (tag 1F0B) below / at / above the configured amount. The reservation and partial-reversal requests on the wire must equal, byte for byte, "
                 "the packets assembled from the specification (amount = max(0, pre - final), currency, receipt, AC + token) and the summary must reproduce the reported fields. implementation = model = specification")
     out.samples = [ops[3][:400], {"op": ops[-1][:200], "impl": impl[-1][:300]}]
